@@ -21,6 +21,11 @@
 (*   parser in ground state, no chunked graphics transfer open, terminal    *)
 (*   attributes restored, render data finalized once, image size and frame  *)
 (*   unchanged, and the caller saw the documented outcome.                  *)
+(*   "Finalized" is judged twice: fin_live = the RenderData instance(s)     *)
+(*   generated for the call, kept referenced by the harness, report         *)
+(*   finalized at the very moment draw() returns / raises (a finalization   *)
+(*   that only happens when the garbage collector gets to the object is     *)
+(*   not draw()'s doing); fin = the finalizer hook ran exactly once.        *)
 (***************************************************************************)
 EXTENDS Terminal, Json, IOUtils
 
@@ -85,6 +90,7 @@ CleanEnd(h, S) ==
   ELSE IF h.wrong_stream THEN "wrong-stream: part of the output went to the stdout of import time, not to sys.stdout"
   ELSE IF h.outcome # "ok" THEN "outcome: draw() raised " \o h.outcome
   ELSE IF ~h.attrs_equal THEN "termios: terminal attributes differ after draw()"
+  ELSE IF ~h.fin_live THEN "unfinalized: the render data was not finalized when draw() returned (left to the garbage collector)"
   ELSE IF h.fin # 1 THEN "finalize: render data finalized " \o ToString(h.fin) \o " times"
   ELSE IF ~h.state_same THEN "image-state: size setting or current frame changed"
   ELSE "ok"
@@ -100,6 +106,7 @@ FaultEnd(h, S) ==
   ELSE IF ~S.vis THEN "cursor-hidden: cursor left hidden"
   ELSE IF ~SgrDefault(S) THEN "sgr-not-reset: text attributes left set"
   ELSE IF ~h.attrs_equal THEN "termios: terminal attributes not restored"
+  ELSE IF ~h.fin_live THEN "unfinalized: the render data was not finalized when draw() returned / raised (left to the garbage collector)"
   ELSE IF h.fin # 1 THEN "finalize: render data finalized " \o ToString(h.fin) \o " times"
   ELSE IF ~h.state_same THEN "image-state: size setting or current frame changed"
   ELSE IF h.outcome # h.expect THEN "outcome: caller saw " \o h.outcome \o ", documented " \o h.expect
